@@ -44,6 +44,9 @@ CONFIG_FLAGS = {
     # the release build in a process that STARTS with one P (GOMAXPROCS=1 in the environment, as in a one-CPU container):
     # what package initialisation sizes by runtime.GOMAXPROCS(0) is sized for one
     "rel1p": ["-tags", "verif"],
+    # the conventional `purego` build tag (no assembly, no unsafe) on top of the release build: the one tag besides
+    # `debug` that Go libraries commonly switch implementations on
+    "relpure": ["-tags", "verif,purego"],
 }
 CONFIG_ENV = {"rel32": {"GOARCH": "386", "CGO_ENABLED": "0"}}
 CONFIG_RUN_ENV = {"rel1p": {"GOMAXPROCS": "1"}}
@@ -550,7 +553,7 @@ def do_setup():
     workdir = os.path.join(BUILD, "setup-%d" % os.getpid())
     os.makedirs(workdir, exist_ok=True)
     ok = True
-    for cfgname in ("rel", "dbg", "race", "racedbg", "rel32", "rel1p"):
+    for cfgname in ("rel", "dbg", "race", "racedbg", "rel32", "rel1p", "relpure"):
         ok = (build_worker(cfgname, workdir) is not None) and ok
     shutil.rmtree(workdir, ignore_errors=True)
     return 0 if ok else 3
